@@ -2,6 +2,10 @@
    Input line:
      c03 <S> <w> <tolS> <shift 0/1> <N> x y ... <nC> (i ox oy  j ox oy  k ox oy  lox hix loy hiy)...
          <scale> <nV> x y ... <nE> j k ... <nE> cx cy ... <nvt> t ...
+     post <shift 0/1> <S> <nP> x y ... <nV> x y ... <nR> a b ... <nR> i j ...
+         (Model/VoronoiPost.v: replicated points, vor.vertices, vor.ridge_vertices (hex, -1 = none), vor.ridge_points)
+     reindex <nV> x y ... <nOrder> i ... <nE> j k cx cy ...
+         (the re-indexing step for a given enumeration of the surviving vertices)
    Output: "key tokens" lines then "end". *)
 open Model
 open Hexio
@@ -62,6 +66,55 @@ let cmd_c03 c =
      | Some us -> out "u_sides" (s_list (fun (t, sd) -> s_nat t ^ ":" ^ s_nat sd) us))
   end
 
+(* ---- Model/VoronoiPost.v *)
+let s_err = function
+  | BadRidgeVertex -> "BadRidgeVertex"
+  | BadRidgePoints -> "BadRidgePoints"
+  | NotThreeRidges v -> "NotThreeRidges " ^ s_nat v
+  | NotThreeSeeds v -> "NotThreeSeeds " ^ s_nat v
+  | BadOrder -> "BadOrder"
+let s_pt (x, y) = s_z x ^ " " ^ s_z y
+let s_np (j, k) = s_nat j ^ " " ^ s_nat k
+let s_oz = function None -> "N" | Some z -> s_z z
+let out_result pre r =
+  match r with
+  | Err e -> out (pre ^ "err") (s_err e)
+  | Ok ((ps, es), cs) ->
+    out (pre ^ "positions") (s_list s_pt ps);
+    out (pre ^ "edges") (s_list s_np es);
+    out (pre ^ "crossing") (s_list s_pt cs)
+
+let cmd_post c =
+  let shift = next_bool c in
+  let s = next_z c in
+  let points = next_list c next_zpair in
+  let vs = next_list c next_zpair in
+  let rv = next_list c next_zpair in
+  let rp = next_list c next_natpair in
+  let v = { vertices = vs; ridge_vertices = rv; ridge_points = rp } in
+  (* everything before the set enumeration (voronization.py:82-189); the re-indexing step is the `reindex` command *)
+  (match post_stages shift s points v with
+   | Err e -> out "err" (s_err e)
+   | Ok ((s', vs'), (es, ms)) ->
+     out "scale" (s_z s');
+     if shift then out "verts" (s_list s_pt vs');
+     out "pbc" (s_list (fun (jk, cr) -> s_np jk ^ " " ^ s_pt cr) es);
+     out "sorted" (s_list s_nat (sorted_nodup (edge_ends es)));
+     out "margins" (s_list (fun ((b0, s0), (b1, s1)) -> s_z b0 ^ " " ^ s_oz s0 ^ " " ^ s_z b1 ^ " " ^ s_oz s1) ms))
+
+let cmd_reindex c =
+  let vs = next_list c next_zpair in
+  let order = next_list c next_nat in
+  let es = next_list c (fun c -> let jk = next_natpair c in let cr = next_zpair c in (jk, cr)) in
+  out_result "" (reindex vs order es)
+
+let cmd_replicate c =
+  let s = next_z c in
+  let pts = next_list c next_zpair in
+  let pad = padding_of (nat_of_int (List.length pts)) in
+  out "padding" (s_z pad);
+  out "points" (s_list s_pt (generate_point_array s pts pad))
+
 let () =
   iter_lines (fun line ->
       let c = cursor_of_line line in
@@ -69,6 +122,9 @@ let () =
       (try
          (match cmd with
           | "c03" -> cmd_c03 c
+          | "post" -> cmd_post c
+          | "reindex" -> cmd_reindex c
+          | "replicate" -> cmd_replicate c
           | _ -> out "error" ("unknown command " ^ cmd))
        with Failure m -> out "error" m);
       print_endline "end")
